@@ -12,6 +12,21 @@ Lemma gen_index_order :
   Gen.C19.index_order = ["priority"; "weight"; "sender"; "nonce"]%string.
 Proof. split; reflexivity. Qed.
 
+Lemma gen_source_shapes :
+  Gen.C19.sender_index_cmp = "skiplist.LessThanFunc: skiplist.Uint64.Compare(b.(txMeta[C]).nonce, a.(txMeta[C]).nonce)"%string /\
+  Gen.C19.insert_writes = ["key = txMeta[C]{nonce: nonce, priority: priority, sender: sender}";
+                           "mp.scores[sk] = txMeta[C]{priority: priority}"]%string /\
+  Gen.C19.next_conds = ["i.priorityNode == nil"; "!ok"; "cursor == nil";
+     "i.mempool.cfg.TxPriority.Compare(key.priority, i.nextPriority) < 0";
+     "i.mempool.cfg.TxPriority.Compare(key.priority, i.nextPriority) == 0";
+     "i.mempool.cfg.TxPriority.Compare(weight, i.priorityNode.Next().Key().(txMeta[C]).weight) < 0"]%string /\
+  Gen.C19.iterate_conds = ["i.priorityNode == nil"; "i.priorityNode == nil"; "nextPriorityNode != nil"]%string /\
+  Gen.C19.reorder_conds = ["for node != nil"; "mp.priorityCounts[key.priority] > 1"]%string /\
+  Gen.C19.sender_weight_conds = ["senderCursor == nil"; "for senderCursor != nil"; "txPriority.Compare(p, weight) != 0"]%string /\
+  Gen.C19.count_tx_body = "return mp.priorityIndex.Len()"%string /\
+  Gen.C19.single_message_len = 1 /\ Gen.C19.min_value = - 2 ^ 63 /\ Gen.C19.max_int64 = 2 ^ 63 - 1.
+Proof. repeat split; reflexivity. Qed.
+
 (** ** Generic list facts *)
 
 Lemma Permutation_filter {A} (f : A -> bool) l l' :
